@@ -233,22 +233,26 @@ Section Proofs.
     | _ => None
     end.
 
+  (* the broker itself answered this request's produce with error code 0 *)
+  Definition acked (e : event) : Prop :=
+    exists r, completion_reply e = Some r /\ broker_answer r = Some 0.
+
   Definition sound (e : event) (w' : world) (env : envelope) : Prop :=
-    completion_reply e = Some (RCode 0) /\
+    acked e /\
     exists obj, get_obj (e_key env) (w_objects w') = Some obj /\
                 e_size env = bsize obj /\ e_sha env = hashf 0 obj.
 
-  Lemma broker_status_200 r : broker_status r =? 200 = true -> r = RCode 0.
+  Lemma broker_status_200 r : broker_status r =? 200 = true -> broker_answer r = Some 0.
   Proof.
-    destruct r as [c| | | |]; cbn; try discriminate.
-    destruct (c =? 0) eqn:E; [|discriminate]. apply Z.eqb_eq in E. now subst.
+    destruct r as [c| | | | |c|c]; cbn; try discriminate;
+    destruct (c =? 0) eqn:E; try discriminate; apply Z.eqb_eq in E; now subst.
   Qed.
 
   Lemma produce_finish_sound key pieces csum alg r w1 obj w' p env :
     obj = pieces ->
     produce_finish hashf key pieces csum alg r (put_obj w1 key obj) = (w', p) ->
     p_env p = Some env ->
-    r = RCode 0 /\ get_obj (e_key env) (w_objects w') = Some obj /\
+    broker_answer r = Some 0 /\ get_obj (e_key env) (w_objects w') = Some obj /\
     e_size env = bsize obj /\ e_sha env = hashf 0 obj.
   Proof.
     intros -> H Henv. unfold produce_finish in H.
@@ -270,7 +274,7 @@ Section Proofs.
       destruct (match rest with [] => snd first <? c_min_part cfg | _ => false end).
       + destruct (fst (next_fault fs)); [inversion H; subst; discriminate|].
         eapply produce_finish_sound in H; [|reflexivity|exact Henv].
-        destruct H as (-> & H2 & H3 & H4). split; [reflexivity|]. eexists; eauto.
+        destruct H as (Ha & H2 & H3 & H4). split; [eexists; split; [reflexivity|exact Ha]|]. eexists; eauto.
       + destruct (fst (next_fault fs)); [inversion H; subst; discriminate|].
         destruct (stream_parts cfg (first :: rest) 1 0 (snd (next_fault fs)) []) as [[st fs1] acc] eqn:Esp.
         destruct (negb (st =? 200)) eqn:Est; [inversion H; subst; discriminate|].
@@ -280,7 +284,7 @@ Section Proofs.
         destruct Esp as [Hnum Hmap]. cbn [map app] in Hmap.
         rewrite (assemble_all acc Hnum), Hmap in H.
         eapply produce_finish_sound in H; [|reflexivity|exact Henv].
-        destruct H as (-> & H2 & H3 & H4). split; [reflexivity|]. eexists; eauto.
+        destruct H as (Ha & H2 & H3 & H4). split; [eexists; split; [reflexivity|exact Ha]|]. eexists; eauto.
     - unfold do_init in H.
       destruct (size <=? 0); [inversion H; subst; discriminate|].
       destruct ((0 <? c_max_blob cfg) && (c_max_blob cfg <? size)); [inversion H; subst; discriminate|].
@@ -316,7 +320,7 @@ Section Proofs.
                 negb (bytes_eqb (s_expect s) (checksum_of hashf (s_alg s) (s_hashed s)))).
       { inversion H; subst. discriminate. }
       destruct (broker_status r =? 200) eqn:Eb; inversion H; subst; cbn in Henv; [|discriminate].
-      inversion Henv; subst. split; [cbn; f_equal; now apply broker_status_200|].
+      inversion Henv; subst. split; [eexists; split; [reflexivity|now apply broker_status_200]|].
       exists (map snd (w_s3parts w)). cbn. rewrite Z.eqb_refl. rewrite H5, H3. auto.
     - unfold do_abort in H. destruct (w_sess w); inversion H; subst; discriminate.
   Qed.
@@ -407,13 +411,13 @@ Section Proofs.
   Theorem broker_error_rejected cfg es w rs e w' p r :
     run hashf cfg init_world es = (w, rs) ->
     step hashf cfg w e = (w', p) ->
-    completion_reply e = Some r -> r <> RCode 0 ->
+    completion_reply e = Some r -> broker_answer r <> Some 0 ->
     p_status p <> 200 /\ p_env p = None.
   Proof.
     intros Hrun Hstep Hr Hne.
     destruct (p_env p) as [env|] eqn:Henv.
-    - destruct (success_sound cfg es w rs e w' p env Hrun Hstep Henv) as (_ & Hc & _).
-      rewrite Hr in Hc. inversion Hc. contradiction.
+    - destruct (success_sound cfg es w rs e w' p env Hrun Hstep Henv) as (_ & (r0 & Hc & Ha) & _).
+      rewrite Hr in Hc. inversion Hc; subst. contradiction.
     - split; [|reflexivity]. intros H200.
       apply (completion_200_env cfg w e w' p r Hstep Hr H200). exact Henv.
   Qed.
@@ -579,13 +583,13 @@ Section Proofs.
   Theorem cbroker_error_rejected cfg cs y rs c y' p e r :
     crun hashf cfg init_sys cs = (y, rs) ->
     cstep hashf cfg y c = (y', Some p) ->
-    executed y c = Some e -> completion_reply e = Some r -> r <> RCode 0 ->
+    executed y c = Some e -> completion_reply e = Some r -> broker_answer r <> Some 0 ->
     p_status p <> 200 /\ p_env p = None.
   Proof.
     intros Hrun Hstep He Hr Hne.
     destruct (p_env p) as [env|] eqn:Henv.
-    - destruct (csuccess_sound cfg cs y rs c y' p env Hrun Hstep Henv) as (e' & He' & _ & Hc & _).
-      rewrite He in He'. inversion He'; subst e'. rewrite Hr in Hc. inversion Hc. contradiction.
+    - destruct (csuccess_sound cfg cs y rs c y' p env Hrun Hstep Henv) as (e' & He' & _ & (r0 & Hc & Ha) & _).
+      rewrite He in He'. inversion He'; subst e'. rewrite Hr in Hc. inversion Hc; subst. contradiction.
     - split; [|reflexivity]. intros H200.
       pose proof Hstep as Hs2. apply cstep_spec in Hs2.
       destruct Hs2 as [[_ Hno]|(e' & p' & He' & Hp & Hs)].
